@@ -356,6 +356,16 @@ class Ctx:
         self.prop_failures.append((clause, sig, case, detail))
         return False
 
+    def impl_call(self, case, fn, clause="implementation-raises", signature=None):
+        """run implementation code on a VALID input; an exception is a property failure
+        (the property promises a result), never a harness crash"""
+        try:
+            return True, fn()
+        except Exception as e:  # noqa: BLE001
+            self.check_prop(clause, False, case, {"exception": (type(e).__name__ + ": " + str(e))[:600]},
+                            signature=signature)
+            return False, None
+
     def check_pred(self, clause, impl, spec, case, signature=None, **kw):
         st, dev = compare(impl, spec, **kw)
         ok = st in ("exact", "tol")
